@@ -51,5 +51,3 @@ Proof.
   apply parse_fuel_irrelevant; [exact (seesaw_parse_string_no_fuel text)|apply Nat.le_max_r].
 Qed.
 
-Print Assumptions pil_default_fuel_suffices.
-Print Assumptions seesaw_default_fuel_suffices.
